@@ -1247,6 +1247,13 @@ void reb_integrator_whfast_part2(struct reb_simulation* const r){
             memcpy(p_j,sync_pj,r->N*sizeof(struct reb_particle));
             free(sync_pj);
             ri_whfast->is_synchronized=0;
+            // The second half of the drift of the variational centre of mass (done above) is part of the step, not of the synchronization.
+            for (int v=0;v<r->N_var_config;v++){
+                const int index = r->var_config[v].index;
+                p_j[index].x += r->dt/2.*p_j[index].vx;
+                p_j[index].y += r->dt/2.*p_j[index].vy;
+                p_j[index].z += r->dt/2.*p_j[index].vz;
+            }
         }
     }
 }
